@@ -46,10 +46,10 @@ WITNESSES = {
 TEXTUAL = {
     "inherited-import-attribute-hint-crash": (
         "class A(object):\n    import zzz\nclass B(A):\n    y = zzz = (zzz.zzz, 's')\n",
-        "find_occurrences raises AttributeError ('ImportedModule' object has no attribute 'assignments') for a name that a "
-        "class assigns (value of unknown type) while a superclass binds it by an import: the inheritance-based "
-        "assignment hint (oi/type_hinting/providers/inheritance.py) passes the superclass's import PyName to the "
-        "type-comment provider, which expects an AssignedName"),
+        "find_occurrences raises AttributeError ('ImportedModule' / 'DefinedName' object has no attribute 'assignments') for a "
+        "name that a class assigns (value of unknown type) while a superclass binds it by an import, a def or a class: the "
+        "inheritance-based assignment hint (oi/type_hinting/providers/inheritance.py) passes the superclass's PyName to "
+        "the type-comment provider, which expects an AssignedName"),
     'instance-attribute-assigned-in-for-or-with': (
         'class K:\n    def run(self, ys):\n        for y in ys:\n            self.x = y\n        return self.x\n',
         'an instance attribute that is only assigned inside a for / with statement (or a nested function) of a method is unknown to the class (_ClassInitVisitor skips these statements): self.x has no PyName, a query on it finds nothing, and in a subclass it is reported with the attribute of the same name inherited from the base'),
